@@ -5,6 +5,7 @@ package main
 import (
 	"fmt"
 	"go/ast"
+	"go/token"
 	"go/types"
 	"sort"
 	"strings"
@@ -207,6 +208,7 @@ func ruleResultMapping(c *Ctx) {
 	})
 	c.floor(rule, "loop over oks", okLoops, 1)
 	c.floor(rule, "loop over fails", failLoops, 1)
+	ruleResultsUntouched(c, rule, me, okVars, failVars)
 
 	// every other AFTResult literal of package server: FAILED with the operation's id
 	pk := c.P.pkg("server")
@@ -796,4 +798,117 @@ func rulePendingWriters(c *Ctx) {
 		c.check(len(others) == 0 && n >= 1, rule, rm.Name, "callers", c.P.pos(rm.Decl.Pos()), "called only where addEntryInternal records a verdict",
 			"held operations are removed from the pending set by "+strings.Join(others, ", ")+", which records no verdict for them")
 	}
+}
+
+// ruleResultsUntouched: what the RIB reported is what the client is told. The
+// variables holding the RIB's oks / fails are written by the RIB call only (a
+// filter or replacement between the call and the mapping loops leaves an
+// installed or failed operation unanswered), and the slice of AFTResults the
+// loops build reaches the response as built: appended to in the loops, never
+// re-ordered, truncated, indexed into or handed to a function that could do so
+// (RIB_PROGRAMMED precedes FIB_PROGRAMMED for an id only by the order of the
+// appends).
+func ruleResultsUntouched(c *Ctx, rule string, me *FuncInfo, okVars, failVars map[types.Object]bool) {
+	info := me.Pkg.TypesInfo
+	isRIBCall := func(e ast.Expr) bool {
+		call, ok := ast.Unparen(e).(*ast.CallExpr)
+		if !ok {
+			return false
+		}
+		obj := calleeObj(info, call)
+		return isMethod(obj, modPath+"/rib", "RIB", "AddEntry") || isMethod(obj, modPath+"/rib", "RIB", "DeleteEntry")
+	}
+	bad := ""
+	// the accumulator: the slice of *spb.AFTResult appended to inside the loops over oks / fails
+	acc := map[types.Object]bool{}
+	inspectNoFuncLit(me.Decl.Body, func(n ast.Node) bool {
+		rs, ok := n.(*ast.RangeStmt)
+		if !ok {
+			return true
+		}
+		id, ok := ast.Unparen(resolveLocal(info, me.Decl, rs.X)).(*ast.Ident)
+		if !ok || !(okVars[info.ObjectOf(id)] || failVars[info.ObjectOf(id)]) {
+			return true
+		}
+		inspectNoFuncLit(rs.Body, func(m ast.Node) bool {
+			if st, ok := m.(ast.Stmt); ok {
+				if o, _ := appendTarget(info, st); o != nil {
+					if sl, ok := o.Type().Underlying().(*types.Slice); ok && isNamed(sl.Elem(), spbPath, "AFTResult") {
+						acc[o] = true
+					}
+				}
+			}
+			return true
+		})
+		return true
+	})
+	harmless := func(f types.Object) bool {
+		if f == nil {
+			return false
+		}
+		if b, ok := f.(*types.Builtin); ok {
+			return b.Name() == "len" || b.Name() == "cap" || b.Name() == "append"
+		}
+		if f.Pkg() == nil {
+			return false
+		}
+		switch f.Pkg().Path() {
+		case "github.com/golang/glog", "log", "fmt", "google.golang.org/protobuf/encoding/prototext":
+			return true
+		}
+		return false
+	}
+	inspectNoFuncLit(me.Decl.Body, func(n ast.Node) bool {
+		switch x := n.(type) {
+		case *ast.AssignStmt:
+			for i, l := range x.Lhs {
+				lo := objOfIdent(info, l)
+				if lo != nil && (okVars[lo] || failVars[lo]) {
+					rhs := x.Rhs[0]
+					if len(x.Rhs) == len(x.Lhs) {
+						rhs = x.Rhs[i]
+					}
+					if !isRIBCall(rhs) {
+						bad = "the RIB's result list " + lo.Name() + " is replaced by " + types.ExprString(rhs) + " between the RIB call and the mapping loops: an operation the RIB installed (or failed) is never answered (" + c.P.pos(x.Pos()) + ")"
+					}
+				}
+				if lo != nil && acc[lo] && x.Tok != token.DEFINE {
+					if o, _ := appendTarget(info, x); o != lo {
+						bad = "the built result list " + lo.Name() + " is overwritten (" + c.P.pos(x.Pos()) + ")"
+					}
+				}
+				if ie, ok := ast.Unparen(l).(*ast.IndexExpr); ok {
+					if o := objOfIdent(info, ie.X); o != nil && (acc[o] || okVars[o] || failVars[o]) {
+						bad = "an element of " + o.Name() + " is overwritten in place (" + c.P.pos(x.Pos()) + ")"
+					}
+				}
+			}
+		case *ast.CallExpr:
+			f := calleeObj(info, x)
+			if harmless(f) {
+				return true
+			}
+			for _, a := range x.Args {
+				e := ast.Unparen(a)
+				if se, ok := e.(*ast.SliceExpr); ok {
+					e = ast.Unparen(se.X)
+				}
+				if u, ok := e.(*ast.UnaryExpr); ok && u.Op == token.AND {
+					e = ast.Unparen(u.X)
+				}
+				if o := objOfIdent(info, e); o != nil && (acc[o] || okVars[o] || failVars[o]) && !isRIBCall(x) {
+					name := types.ExprString(x.Fun)
+					bad = "the result list " + o.Name() + " is handed to " + name + ", which can re-order or change it, before it reaches the response: the per-id order RIB_PROGRAMMED → FIB_PROGRAMMED and the one-result-per-verdict count exist only by the order of the appends (" + c.P.pos(x.Pos()) + ")"
+				}
+			}
+		}
+		return true
+	})
+	c.Sites++
+	if len(acc) == 0 {
+		c.vanished(rule, me.Name, "result accumulator", "no slice of AFTResult is appended to inside the loops over the RIB's results")
+		return
+	}
+	c.check(bad == "", rule, me.Name, "the RIB's results reach the response unfiltered and in the order built", c.P.pos(me.Decl.Pos()),
+		"oks/fails are written by the RIB call only; the AFTResult list is only appended to", bad)
 }
